@@ -16,11 +16,12 @@ def BM_PAGE_BLOCKS : Nat := 4064      -- 127*32
 def nBlock2bitmapSize (nBlock : Nat) : Nat :=
   nBlock / BM_PAGE_BLOCKS + (if nBlock % BM_PAGE_BLOCKS ≠ 0 then 1 else 0)
 
-/-- pure bit test on a table -/
+/-- pure bit test on a table: `map[word] & bitMask[bit]` -/
 def bmIsFree (tbl : List Blk) (n : Nat) : Bool :=
   let s := n - 2
-  ((tbl.getD (s / BM_PAGE_BLOCKS) []).w (1 + (s / 32) % 127) / 2 ^ (s % 32)) % 2 = 1
+  ((tbl.getD (s / BM_PAGE_BLOCKS) []).w (1 + (s / 32) % 127)).testBit (s % 32)
 
+/-- `map[word] | bitMask[bit]` (free) / `map[word] & ~bitMask[bit]` (used), in 32 bits -/
 def bmSetWord (tbl : List Blk) (n : Nat) (free : Bool) : List Blk :=
   let s := n - 2
   let pg := s / BM_PAGE_BLOCKS
@@ -28,8 +29,7 @@ def bmSetWord (tbl : List Blk) (n : Nat) (free : Bool) : List Blk :=
   let page := tbl.getD pg []
   let w := page.w wi
   let bit := 2 ^ (s % 32)
-  let w' := if free then (if (w / bit) % 2 = 1 then w else w + bit)
-            else (if (w / bit) % 2 = 1 then w - bit else w)
+  let w' := if free then w ||| bit else w &&& (4294967295 ^^^ bit)
   tbl.set pg (page.setW wi w')
 
 /-- the guard the C code does not have: is `n` a block number the table can hold? -/
